@@ -52,6 +52,7 @@ def _handler_accepts(node: ast.If, key: str) -> set:
 
 def run(rep: core.Report):
     _r18f(rep)
+    _r18h(rep)
     _r18g(rep)
     rep.rule("R18a", "table closure: every option dest is forwarded (or handled directly), every forwarded key has a parse_conf handler, every parameter has a set_settings consumer calling an existing setter, every settings.<x> read by the scripts exists", 300)
     rep.rule("R18b", "encoding agreement: what read_options stores for a key (.true./.false. literal, joined list, raw typed value) is what the key's parse_conf handler parses; store_false flags forward the negated literal", 90)
@@ -263,6 +264,76 @@ def _r18g(rep):
     shared_forward.run(rep, "R18g", SCRIPT, None, 3)
 
 
+
+def _r18h(rep):
+    """PRIMITIVE_AXES / --pa given by the user wins over the primitive matrix stored in a phonopy.yaml input, as it does
+    in phonopy.load(primitive_matrix=...): path evaluation of _collect_cells_info."""
+    CCI = "phonopy/cui/collect_cell_info.py"
+    rep.rule("R18h", "precedence of the user's primitive matrix: on every path of _collect_cells_info on which the primitive_matrix argument is given (not None), the primitive matrix returned is that argument, also when the input file is a phonopy.yaml that stores one (the library route phonopy.load(primitive_matrix=...) lets the argument win)", 2)
+    fn = core.find_def(CCI, "_collect_cells_info")
+    ps = [a.arg for a in fn.args.args]
+    if "primitive_matrix" not in ps:
+        raise AnalysisError("_collect_cells_info: parameter primitive_matrix vanished")
+    rets = [r for r in ast.walk(fn) if isinstance(r, ast.Return) and r.value is not None]
+    r0 = core.resolve_name(fn, rets[-1].value) if rets else None
+    if not isinstance(r0, ast.Tuple) or len(r0.elts) != 3:
+        raise AnalysisError("_collect_cells_info no longer returns (interface mode, supercell matrix, primitive matrix)")
+
+    def truth(test, assume):
+        t = core.src(test).replace(" ", "")
+        if t == "primitive_matrixisnotNone":
+            return assume["user"]
+        if t == "primitive_matrixisNone":
+            return not assume["user"]
+        if t.endswith(".primitive_matrixisnotNone"):
+            return assume["file"]
+        if t.endswith(".primitive_matrixisNone"):
+            return not assume["file"]
+        if "phonopy_yaml" in t and "==" in t:
+            return assume["yaml"]
+        return None
+
+    def tags(e, env):
+        out = set()
+        for x in ast.walk(e):
+            if isinstance(x, ast.Name) and x.id == "primitive_matrix":
+                out.add("user")
+            elif isinstance(x, ast.Name) and x.id in env:
+                out |= env[x.id]
+            elif isinstance(x, ast.Attribute) and x.attr == "primitive_matrix":
+                out.add("file")
+        if isinstance(e, ast.Constant) and e.value is None:
+            out.add("none")
+        return out
+
+    def run_block(stmts, env, assume):
+        envs = [env]
+        for st in stmts:
+            nxt = []
+            for e_ in envs:
+                if isinstance(st, (ast.Assign, ast.AnnAssign)) and isinstance(st.targets[0] if isinstance(st, ast.Assign) else st.target, ast.Name) and st.value is not None:
+                    e2 = dict(e_)
+                    e2[(st.targets[0] if isinstance(st, ast.Assign) else st.target).id] = tags(st.value, e_)
+                    nxt.append(e2)
+                elif isinstance(st, ast.If):
+                    tv = truth(st.test, assume)
+                    if tv is not False:
+                        nxt += run_block(st.body, dict(e_), assume)
+                    if tv is not True:
+                        nxt += run_block(st.orelse, dict(e_), assume)
+                else:
+                    nxt.append(e_)
+            envs = nxt
+        return envs
+
+    for yaml_mode, file_has in ((True, True), (True, False), (False, False)):
+        finals = run_block(fn.body, {}, {"user": True, "file": file_has, "yaml": yaml_mode})
+        got = [tags(r0.elts[2], f) for f in finals]
+        ok = bool(got) and all(g == {"user"} for g in got)
+        rep.instance("R18h", CCI, "_collect_cells_info", f"user's primitive matrix given, {'phonopy.yaml input' if yaml_mode else 'other input'}{' that stores a primitive matrix' if file_has else ''}: returned value comes from {sorted(set().union(*got)) if got else '?'}", ok,
+                     "with --pa / PRIMITIVE_AXES given, the primitive matrix handed on is the one stored in the input file: the user's request is dropped on the command-line route while phonopy.load(primitive_matrix=...) honours it, so the same setting gives different primitive cells (and band / mesh / DOS results) on the two routes", line=fn.lineno)
+
+
 def selftest():
     V = []
     b = lambda name, file, old, new, rule, expect="", **kw: V.append(dict(name=name, kind="break", file=file, old=old, new=new, rule=rule, expect=expect, **kw))
@@ -281,4 +352,5 @@ def selftest():
     b("option merged with its old spelling through 'or'", SETT, '        if "rd_temperature" in arg_list:\n            if self._args.rd_temperature is not None:\n                self._confs["random_displacement_temperature"] = (\n                    self._args.rd_temperature\n                )\n', '        rd_temperature = arg_list.get("rd_temperature") or arg_list.get("temperature")\n        if rd_temperature is not None:\n            self._confs["random_displacement_temperature"] = rd_temperature\n', "R18c", "rd_temperature")
     b("phonopy-load with --config loses the command defaults", SCRIPT, "                args=args,\n                default_settings=argparse_control,\n            )", "                args=args,\n            )", "R18f", "_read_phonopy_settings")
     b("fc-calculator helper called without the command flag", SCRIPT, "    fc_calculator, _ = _get_fc_calculator_params(\n        settings, load_phonopy_yaml=load_phonopy_yaml\n    )\n    if settings.fc_symmetry and fc_calculator == \"traditional\":", "    fc_calculator, _ = _get_fc_calculator_params(settings)\n    if settings.fc_symmetry and fc_calculator == \"traditional\":", "R18g", "load_phonopy_yaml")
+    b("stored primitive matrix wins over the user's", "phonopy/cui/collect_cell_info.py", "        if primitive_matrix is not None:\n            _primitive_matrix = primitive_matrix\n        elif phpy.primitive_matrix is not None:\n            _primitive_matrix = phpy.primitive_matrix", "        if phpy.primitive_matrix is not None:\n            _primitive_matrix = phpy.primitive_matrix\n        elif primitive_matrix is not None:\n            _primitive_matrix = primitive_matrix", "R18h", "phonopy.yaml input that stores")
     return V
